@@ -126,6 +126,23 @@ Definition strip_whitespace (b : bytes) : bytes := filter (fun c => negb (is_sp 
 Definition strip (ignore_whitespace : bool) (b : bytes) : bytes :=
   if ignore_whitespace then strip_whitespace b else b.
 
+(* Candidate repair of finding F9 (NOT what the code does today; see docs/C11.md): a last line made of spaces only
+   is kept as one space, so that it stays a line.
+     if n := len(str); n > 0 && str[n-1] == ' ' && (len(response) == 0 || response[len(response)-1] == '\n') {
+         response += " " } *)
+Definition strip_whitespace_fixed (b : bytes) : bytes :=
+  let r := strip_whitespace b in
+  match last_byte b with
+  | Some c =>
+      if is_sp c then
+        match last_byte r with
+        | None => r ++ [32%Z]
+        | Some d => if is_nl d then r ++ [32%Z] else r
+        end
+      else r
+  | None => r
+  end.
+
 (* What FileDiff.Consume reports as OldLinesOfCode / NewLinesOfCode for a blob *)
 Definition diff_loc (ignore_whitespace : bool) (b : bytes) : nat :=
   length (split_lines (strip ignore_whitespace b)).
